@@ -228,5 +228,8 @@ class SelectEventLoop(EventLoop):
 
         self.logger.debug("Processing input")
         for record in ready:
+            if self._watch_files.get(record.fileobj) is not record.data:
+                # the watch was removed (or replaced) by a callback called earlier in this batch
+                continue
             record.data()
             self._did_something = True
